@@ -271,6 +271,64 @@ def parse_and_route(E):
         P('gate:no_verifier_no_gate', not log.of(verifier) if verifier else True)
 
 
+@harness('c19.gate.with_real_router', ['C19', 'C12'], functions=[PAR, RH + '._verify_authentication', RR + 'RequestRouter.route',
+                                                               RR + 'RequestRouter._get_unknown_route'], max_paths=200000,
+         assumptions=[PARAMETRIC, 'route handlers and the verifier are abstract callables; composite metadata decoding is C18'])
+def gate_with_real_router(E):
+    """The gate composed with the REAL router (c19.parse_and_route uses an abstract one): with a verifier configured, a
+    request that carries no authentication entry or that the verifier rejects runs NO handler of the router - neither the
+    registered one nor the unknown-route handler of its type - whether or not its route is registered."""
+    sig_hook(E)
+    router = E.call(E.lookup(RR + 'RequestRouter'), [])
+    t = TYPES[E.path.choice(5, 'request-type')]
+    reg = E.path.choice(2, 'route-registered') == 1
+    unk = E.path.choice(2, 'unknown-handler') == 1
+    if reg:
+        E.call(E.call(E.getattr(router, DECOS[t]), ['r1']), [handler_fn('route:%s:r1' % t)])
+    E.call(E.call(E.getattr(router, DECOS[t]), ['r2']), [handler_fn('route:%s:r2' % t)])
+    if unk:
+        E.call(E.call(E.getattr(router, DECOS[t] + '_unknown'), []), [handler_fn('unknown:%s' % t)])
+    verifier = SOpaque('callable', 'verifier')
+    h = E.call(E.lookup(RH), [router, verifier])
+    auth = E.path.choice(2, 'authentication-entry') == 1
+    Xd = 'rsocket/extensions/'
+    items = [E.call(E.lookup(Xd + 'routing.py::RoutingMetadata'), [[b'r1']])]
+    au = None
+    if auth:
+        au = E.call(E.lookup(Xd + 'helpers.py::authenticate_bearer'), ['tok'])
+        items.insert(E.path.choice(2, 'auth-position'), au)
+    cm = E.call(E.lookup(Xd + 'composite_metadata.py::CompositeMetadata'), [items])
+    E.stubs['rsocket/request_handler.py::RequestHandler._parse_composite_metadata'] = lambda E_, f, a, k: cm
+    rejected = E.path.choice(2, 'verifier-rejects') == 1 if auth else False
+    result = SOpaque('result', 'handler-result', props={'isinstance:Future': False, 'isinstance:Payload': True})
+    E.opaque_isinstance = lambda E_, obj, cls: obj.props.get('isinstance:' + cls.name, False)
+
+    def call(E_, o, m, a, k):
+        if o is verifier:
+            if rejected:
+                raise PyExc(E_.make_exc('Exception', 'rejected'))
+            return aio.Awaitable('ready')
+        return aio.Awaitable('ready', result=result)
+    log = OpaqueLog(E, returns={('callable', '__call__'): call})
+    ft = E.lookup('rsocket/frame.py::FrameType').members[t]
+    payload = E.call(E.lookup('rsocket/payload.py::Payload'), [b'd', b'md'])
+    try:
+        E.await_value(E.call(E.getattr(h, '_parse_and_route'), [ft, payload]))
+        refused = False
+    except PyExc as e:
+        refused = True
+    E.cover('handled')
+    ran = [c[0].ident for c in log.calls if c[0].kind == 'callable' and c[0] is not verifier]
+    if not auth or rejected:
+        E.prove('gate:without_accepted_authentication_no_handler_of_the_router_runs[registered route or not, unknown-route handler or not]',
+                ran == [] and refused)
+    else:
+        want = ['route:%s:r1' % t] if reg else (['unknown:%s' % t] if unk else [])
+        E.prove('gate:with_accepted_authentication_exactly_the_handler_the_router_selects_runs', ran == want and refused == (not want))
+        E.prove('gate:verifier_consulted_once_before_any_handler', [c[0] for c in log.calls][:1] == [verifier]
+                and len(log.of(verifier)) == 1)
+
+
 def _entry(name, tname):
     def run(E):
         h, router, verifier = mk_handler(E, False)
